@@ -380,8 +380,8 @@ func runEngine(g Group, work string, n int) GroupOut {
 
 func main() {
 	vh.Quiet()
-	if len(os.Args) != 5 || os.Args[1] != "run" {
-		vh.Die("usage: c14 run <groups.ndjson> <out.ndjson> <workdir>")
+	if len(os.Args) != 5 || (os.Args[1] != "run" && os.Args[1] != "proto") {
+		vh.Die("usage: c14 run|proto <in.ndjson> <out.ndjson> <workdir>")
 	}
 	repo := os.Getenv("VERIF_REPO")
 	if repo == "" {
@@ -389,6 +389,10 @@ func main() {
 	}
 	environment.SetProcessorsDirectory(filepath.Join(repo, "proxy/src/services/lunar-engine/streams/processors/registry"))
 	context_manager.Get().SetMockClock()
+	if os.Args[1] == "proto" {
+		runProto(os.Args[2], os.Args[3], os.Args[4])
+		return
+	}
 	in, err := os.Open(os.Args[2])
 	if err != nil {
 		vh.Die("open: %v", err)
